@@ -12,7 +12,9 @@
 (***************************************************************************)
 EXTENDS StrFrame, TLC, Json, IOUtils
 
-Rows == ndJsonDeserialize(IOEnv.ROWS)
+\* parked in a TLC register (run with -workers 1): read the file once
+ASSUME TLCSet(41, ndJsonDeserialize(IOEnv.ROWS))
+Rows == TLCGet(41)
 \* row = [id, steps |-> <<[kind, n, nulless, mask, furibug, payload]>>, ok |-> BOOLEAN, blobs |-> <<bytes>>]
 
 Steps(r) == <<>> \o [k \in 1..Len(r.steps) |->
